@@ -15,6 +15,7 @@ one() {
   if ! git -C $wt apply /verif/seeded/$s/patch.diff; then echo "$s: patch does not apply"; git -C /repo worktree remove --force $wt; return; fi
   GOVC_NORETRY=1 GOVC_SCRATCH=$wt/.govc /verif/bin/govc check -prop $p -tier quick -repo $wt > out/selftest/$s.txt 2>&1; rc=$?
   git -C /repo worktree remove --force $wt 2>/dev/null; rm -rf $wt
+  if grep -q '"check_result": "missed"' /verif/seeded/$s/meta.json; then echo "$s: exit $rc (recorded as missed / not claimed: $( [ $rc -eq 0 ] && echo still unreported || echo NOW REPORTED ))"; return; fi
   if [ $rc -eq 1 ]; then echo "$s: reported ($(grep -c '^VIOLATION' out/selftest/$s.txt) violations; first: $(grep -m1 FAILED-OBLIGATION out/selftest/$s.txt | cut -c19-120))"; else echo "$s: NOT REPORTED (exit $rc)"; fi
 }
 export -f one
